@@ -29,6 +29,11 @@ CHECKS.update({
         text="Exploration. (py) generated Python ints, floats from random bit patterns, Decimals, bools, strs, dates, times, datetimes with every whole-minute offset, timedeltas and Durations go through Literal(v): documented datatype, lexical form accepted by the reference grammar, toPython() equal and of the same type. (lex) grammar-generated valid forms for each of the 30 recognised XSD datatypes: not flagged ill-typed, value equals the reference value, normalised form valid / same value / idempotent (constructor and normalize()). (eq) eq() against Python equality of the mapped values inside a value family, and term equality implies eq. (ill) invalid forms must not crash. Six listed findings (datetime range limits, 24:00:00, >6 fraction digits, xsd:date time zones, zero yearMonthDuration, negative mixed durations) are carved out by input predicates.",
         note="The reference (rv/model/xsdref.py) is self-tested on XSD spec examples at setup. Whitespace-padded forms and a bytes-value constructor are not judged.",
         ref="DESIGN.md §3 C09"),
+    "C16": dict(
+        technique="runtime monitoring: boundary round trip of generated result tables through JSON/XML, an independent W3C-TSV writer feeding the TSV reader, CSV output read by the stdlib csv module",
+        text="Exploration. Generated SELECT tables (0-6 variables, 0-12 rows, every pattern of unbound cells incl. all-unbound rows, terms with control characters, quotes, tabs, newlines, CR, astral characters, falsy literals) and both ASK results are serialised and parsed back as SPARQL JSON and SPARQL XML (same variables in order, same row sequence, equal terms, blank nodes up to a consistent relabelling); rendered by our own W3C-conformant TSV writer (numeric/boolean shorthand on alternating rows) and read by rdflib's TSV reader; serialised as CSV and read by the stdlib csv module (header, row count, str(term) per cell). Two listed findings (raw CR in XML character data; TSV rows split at Unicode line separators) are carved out by input predicates.",
+        note="XML lane limited to XML 1.0 Char text. All-unbound TSV rows are outside the clause.",
+        ref="DESIGN.md §3 C16"),
     "C17": dict(
         technique="runtime monitoring: bind/qname histories with two-way-map invariants and expand(compact(x)) = x checked at every quiescent point",
         text="Exploration. Generated histories of bind() with all flag combinations over nested/overlapping namespaces, interleaved with qname/curie/compute_qname(_strict)/normalizeUri/n3 probes, Turtle parses, serialisations that generate prefixes and reset(), on both stores; after each step the listing and both lookups must agree and every compact form must use a currently bound prefix and expand back. All short bind histories are enumerated.",
